@@ -9,7 +9,12 @@ for d in pfxdriver spkidriver mgrdriver bgpdriver ipdriver rtrdriver lockdriver 
   root=$(awk -v n="$d" '$0 ~ "name = \""n"\"" {getline; gsub(/root = |"/,""); print}' lakefile.toml | tr . /)
   [ -f "$root.lean" ] && TARGETS="$TARGETS $d"
 done
-flock "$HERE/build/lake.lock" lake build RtrModel RtrProofs RtrProps
+# the generated model parts are tied to the current source: regenerate them (each check does so again)
+(cd "$HERE" && python3 tools/gen_constants.py >/dev/null 2>&1 && python3 tools/gen_locks.py >/dev/null 2>&1) || \
+  echo "setup: a translator failed on the current source (the checks that depend on it will report it)"
+# a proof that no longer builds is a finding of the check that owns it, not a setup failure
+flock "$HERE/build/lake.lock" lake build RtrModel RtrProofs RtrProps || \
+  echo "setup: part of the Lean library did not build (the checks that depend on it will report it)"
 # drivers are rebuilt by the individual checks as well; a driver that does not build must not fail the whole setup
 for t in $TARGETS; do
   flock "$HERE/build/lake.lock" lake build $t || echo "setup: driver $t did not build (its check will report it)"
